@@ -665,9 +665,7 @@ class Diag(Linop):
                     oend = self.oindices[n]
 
                 if self.iaxis is None:
-                    output_n = linop(
-                        input[istart:iend].reshape(linop.ishape)
-                    ).ravel()
+                    output_n = linop(input[istart:iend].reshape(linop.ishape))
                 else:
                     ndim = len(linop.ishape)
                     axis = self.iaxis % ndim
@@ -680,7 +678,7 @@ class Diag(Linop):
                     output_n = linop(input[islc])
 
                 if self.oaxis is None:
-                    output[ostart:oend] = output_n
+                    output[ostart:oend] = output_n.ravel()
                 else:
                     ndim = len(linop.oshape)
                     axis = self.oaxis % ndim
